@@ -615,10 +615,6 @@ func runGrpc(c TCase) (info vkit.Info, err error) {
 	dbg := os.Getenv("VERIF_GRPC_DEBUG") != ""
 	for si, st := range c.Steps {
 		t0 := time.Now()
-		if dbg && si > 0 {
-			defer func(si int, k string) {}(si, st.K)
-		}
-		_ = t0
 		switch st.K {
 		case "req":
 			runReqs(si, st.Reqs)
